@@ -179,7 +179,6 @@ theorem dropFetch_eq (ps : List Peer) (fk0 : FetchKey) : dropFetch ps fk0 = ps.m
   apply List.map_congr_left
   intro q _
   simp only [Function.comp, dropG]
-  split <;> rfl
 
 theorem dropG_keepsA (fk0 : FetchKey) : KeepsA (dropG fk0) := by
   intro q
@@ -250,5 +249,91 @@ theorem unfetchReq_good {cfg : Config} {d : Option (Bytes × Nat)} {x : Ctx} {p 
       refine ⟨h.dropFetch ⟨p.conn, f.uid⟩ rfl, OutExt.refl _ _, fun _ hj => idFirst_successFromRequest hj, Or.inl ?_⟩
       refine AuthSame.of_map (dropG_keepsA ⟨p.conn, f.uid⟩) rfl ?_
       exact dropFetch_eq _ _
+
+/-! ## set / call -/
+
+theorem FInv.removeRoute {cfg : Config} {s s' : State} (h : FInv cfg s) (owner : Nat) (rid : Bytes)
+    (hs : s'.peers = removeRoute s.peers owner rid) : FInv cfg s' :=
+  h.routes owner _ hs
+
+theorem route_tail_good {cfg : Config} {d : Option (Bytes × Nat)} {x : Ctx} {p : Peer} {req : Json}
+    (h : FInv cfg x.st) (params : Json) (path : Bytes) (e : Element) (isState : Bool) (originId : Option Json)
+    (value : Option Json) :
+    Good cfg d p.conn req x
+      (let rid := routedId originId x.st.uuid p.addrTok
+       let x := { x with st := { x.st with uuid := (x.st.uuid + 1) % 4294967296 } }
+       if isState && value.isNone then
+         (x, errorFromRequest req INVALID_PARAMS "reason" (k "no value found"))
+       else
+         match getTimeout cfg (params.getItem (k "timeout")) e.timeoutNs with
+         | .err reason => (x, errorFromRequest req INVALID_PARAMS "reason" (k reason))
+         | .ns tns =>
+           let t := x.st.nextTimer
+           let x := { x with st := { x.st with nextTimer := t + 1 } }
+           if x.routeFull then
+             ({ emit x (.timerDestroy t) with routeFull := false },
+              errorFromRequest req INTERNAL_ERROR "reason" (k "routing table full"))
+           else
+             let r : Route := { rid := rid, requester := p.conn, owner := e.owner, originId := originId, timer := t }
+             let st := { x.st with peers := updatePeer x.st.peers e.owner (fun q => { q with routes := q.routes ++ [r] }) }
+             let x := emit { x with st := st } (.timerArm t tns)
+             let (x, ok) := send x e.owner (routedMessage rid path isState value)
+             if ok then (x, none)
+             else
+               let x := emit { x with st := { x.st with peers := removeRoute x.st.peers e.owner rid } } (.timerDestroy t)
+               (x, errorFromRequest req INTERNAL_ERROR "reason" (k "could not send routing information"))) := by
+  simp only
+  split
+  · exact ⟨h.of_peers_eq rfl, OutExt.refl _ _, fun _ hj => idFirst_errorFromRequest hj, Or.inl (AuthSame.of_eq rfl rfl)⟩
+  · cases hto : getTimeout cfg (params.getItem (k "timeout")) e.timeoutNs with
+    | err reason =>
+      exact ⟨h.of_peers_eq rfl, OutExt.refl _ _, fun _ hj => idFirst_errorFromRequest hj, Or.inl (AuthSame.of_eq rfl rfl)⟩
+    | ns tns =>
+      simp only
+      split
+      · exact ⟨h.of_peers_eq rfl, ⟨[_], rfl, by simp [J]⟩, fun _ hj => idFirst_errorFromRequest hj,
+          Or.inl (AuthSame.of_eq rfl rfl)⟩
+      · generalize hsend : send _ e.owner _ = r
+        have hst : r.1.st.peers = updatePeer x.st.peers e.owner _ ∧ r.1.st.users = x.st.users := by
+          rw [← hsend, send_st]; exact ⟨rfl, rfl⟩
+        have hout := OutExt.send (Q := J cfg x.st d) _ e.owner _
+          (fun ok => J_idFirst (idFirst_routedMessage _ path isState _) ok)
+        rw [hsend] at hout
+        obtain ⟨x2, ok⟩ := r
+        have hout0 : OutExt (J cfg x.st d) x x2 := by
+          refine OutExt.trans ⟨[_], rfl, ?_⟩ hout
+          simp [J]
+        cases ok
+        · simp only [Bool.false_eq_true, if_false]
+          have hinv2 : FInv cfg x2.st := h.routes e.owner _ hst.1
+          refine ⟨hinv2.removeRoute e.owner _ rfl, hout0.trans ⟨[_], rfl, by simp [J]⟩,
+            fun _ hj => idFirst_errorFromRequest hj, Or.inl ?_⟩
+          exact (AuthSame.routes e.owner _ hst.2 hst.1).trans (AuthSame.routes e.owner _ rfl rfl)
+        · simp only [if_true]
+          exact ⟨h.routes e.owner _ hst.1, hout0, fun _ hj => by cases hj,
+            Or.inl (AuthSame.routes e.owner _ hst.2 hst.1)⟩
+
+theorem setOrCall_good {cfg : Config} {d : Option (Bytes × Nat)} {x : Ctx} {p : Peer} {req : Json} {isState : Bool}
+    (h : FInv cfg x.st) : Good cfg d p.conn req x (setOrCall cfg x p req isState) := by
+  unfold setOrCall
+  cases hgp : getParamsAndPath req with
+  | err r => exact Good.same h (getParamsAndPath_err hgp)
+  | ok params path =>
+    simp only
+    cases he : findElement x.st path with
+    | none => exact Good.err h _ _ _
+    | some e =>
+      simp only
+      split
+      · exact Good.err h _ _ _
+      · split
+        · exact Good.err h _ _ _
+        · split
+          · exact Good.err h _ _ _
+          · split
+            · exact route_tail_good h params path e isState _ _
+            · exact route_tail_good h params path e isState _ _
+            · exact route_tail_good h params path e isState _ _
+            · exact Good.err h _ _ _
 
 end Cjet.Daemon.C08
